@@ -92,6 +92,28 @@ where
     }
 }
 
+/// Headers with arbitrary (also inconsistent) payload / backlink fields: the property speaks about
+/// every header that *passes validation*, so whatever `validate_header` lets through must round-trip.
+fn odd_shapes<E: Clone>(k: &SigningKey, ext: E) -> Vec<(String, Header<E>)> {
+    let mut v = vec![];
+    let body = Body::new(&[1u8, 2, 3]);
+    for (hn, hash) in [("none", None), ("some", Some(body.hash()))] {
+        for size in [0u32, 3] {
+            for (bn, backlink) in [("none", None), ("some", Some(Hash::digest(b"p")))] {
+                for seq in [0u32, 1] {
+                    for version in [1u16, 2] {
+                        v.push((
+                            format!("odd-hash{hn}-size{size}-backlink{bn}-seq{seq}-v{version}"),
+                            Header::<E> { version, verifying_key: k.verifying_key(), signature: None, payload_size: size, payload_hash: hash, seq_num: seq, backlink, extensions: ext.clone() },
+                        ));
+                    }
+                }
+            }
+        }
+    }
+    v
+}
+
 fn shapes<E: Clone>(k: &SigningKey, ext: E) -> Vec<(String, Header<E>)> {
     let mut v = vec![];
     let bodies: Vec<Option<Body>> = vec![None, Some(Body::new(&[7u8])), Some(Body::new(&[9u8; 300]))];
@@ -144,6 +166,23 @@ pub fn run(mut rep: Report) -> i32 {
     for (d, h) in shapes(&k, ()) {
         check_header(&mut rep, "unit", &d, h, &k);
     }
+    // every field combination validate_header accepts must round-trip as well
+    let mut passed_validation = 0u64;
+    for (d, mut h) in odd_shapes(&k, ()).into_iter().chain(odd_shapes(&k, ()).into_iter().map(|(d, h)| (format!("{d}-again"), h)).take(0)) {
+        h.sign(&k);
+        if p2panda_core::validate_header(&h).is_ok() {
+            passed_validation += 1;
+            check_header(&mut rep, "validated", &d, h, &k);
+        }
+    }
+    for (d, mut h) in odd_shapes(&k, Custom { a: 7, b: Some("z".into()) }) {
+        h.sign(&k);
+        if p2panda_core::validate_header(&h).is_ok() {
+            passed_validation += 1;
+            check_header(&mut rep, "validated-custom", &d, h, &k);
+        }
+    }
+    rep.set("odd_field_combinations_passing_validate_header", json!(passed_validation));
     for (ci, c) in [Custom::default(), Custom { a: u64::MAX, b: None }, Custom { a: 1, b: Some("x".repeat(40)) }].into_iter().enumerate() {
         for (d, h) in shapes(&k, c.clone()) {
             check_header(&mut rep, "custom", &format!("custom{ci}-{d}"), h, &k);
